@@ -609,8 +609,27 @@ func (h *fcHarness) doUpdate(nVals int, mkBalances func(int) []common.Gwei, spe 
 		}
 	}
 	just, fin := h.m.Justified, h.m.Finalized
-	kind := b.Rng.IntN(10)
+	kind := b.Rng.IntN(11)
 	switch {
+	case kind == 10 && len(cands) > 0 && fin.Epoch > 0:
+		// mixed: justified ahead, finalized BEHIND the current one by epoch while its root is still inside the finalized subtree
+		// (the same root, or a descendant): must be refused, finality never regresses
+		var ahead []cand
+		for _, c := range cands {
+			if c.cp.Epoch > just.Epoch {
+				ahead = append(ahead, c)
+			}
+		}
+		if len(ahead) > 0 {
+			just = ahead[b.Rng.IntN(len(ahead))].cp
+		} else {
+			just.Epoch++
+		}
+		fin.Epoch -= 1 + common.Epoch(b.Rng.IntN(int(fin.Epoch)))
+		if b.Rng.IntN(2) == 0 {
+			fin.Root = cands[b.Rng.IntN(len(cands))].cp.Root
+		}
+		b.Inc("updates_with_justified_ahead_and_finalized_behind")
 	case kind < 6 && len(cands) > 0: // plausible: justified ahead, finalized an ancestor of it (maybe unchanged)
 		j := cands[b.Rng.IntN(len(cands))]
 		var ahead []cand
@@ -743,6 +762,24 @@ func (h *fcHarness) doUpdate(nVals int, mkBalances func(int) []common.Gwei, spe 
 		}
 	}
 	b.Count("prune_notifications_checked", int64(len(got)))
+	// exactly the dropped nodes are gone: every root that lost all its nodes is unknown now, every retained root still known
+	roots := map[common.Root]bool{}
+	for _, pn := range pruned {
+		roots[pn.Ref.Root] = true
+	}
+	for r := range roots {
+		var gs common.Slot
+		var ok bool
+		if !h.guard(catUpdate, "GetSlot", func() { gs, ok = h.fc.GetSlot(r) }) {
+			return
+		}
+		ws, wok := h.m.GetSlot(r)
+		b.Inc("pruned_roots_queried")
+		if ok != wok || (ok && gs != ws) {
+			h.viol(catUpdate, "prune/root-still-known", fmt.Sprintf("after the prune GetSlot(%x)=%d,%v; the tree that remains says %d,%v", r[:2], gs, ok, ws, wok))
+			return
+		}
+	}
 }
 
 // balStr renders a balance vector compactly: one character per validator (0 = zero, 1 = 1 ETH, 3 = 32 ETH, ? = other).
